@@ -495,7 +495,7 @@ pub fn main(ctx: &Ctx) {
     ctx.assume("faults on the newest listed log segment whose outcome equals a frame-prefix replay of that segment are excluded (C01's crash case), as the property states");
     ctx.assume("snapshot size-field faults are recovered in a child process because the engine may abort on an unbounded allocation; an abort counts as 'refused to start'");
     run_committed_replays(ctx, &C13);
-    run_pbt(ctx, &C13, ctx.tier.pick(1_500, 40_000));
+    run_pbt(ctx, &C13, ctx.tier.pick(12_000, 200_000));
 }
 
 pub fn replay(ctx: &Ctx, v: &serde_json::Value) -> Option<i32> {
